@@ -158,6 +158,9 @@ Definition nb_arr_arr (op : Z -> Z -> Z) (a b : tarr) : tarr :=
   mkT d (map (fun p => wr d (op (fst p) (snd p))) (combine (tv a) (tv b))).
 Definition cmp_arr_sc (f : Z -> Z -> bool) (a : tarr) (k : Z) : list bool := map (fun c => f c k) (tv a).
 
+(* np.arange(n) as a list *)
+Definition zrange_ (n : Z) : list Z := map Z.of_nat (seq 0 (Z.to_nat n)).
+
 (* np.diff(a): consecutive differences, computed in a's own dtype (wraps for unsigned types) *)
 Definition np_diff (a : tarr) : list Z :=
   map (fun p => wr (tdt a) (snd p - fst p)) (combine (tv a) (tl (tv a))).
